@@ -61,7 +61,7 @@ class Mon:
         from pydrobert.speech import filters as F
 
         for cls in (F.TriangularOverlappingFilterBank, F.Fbank, F.GaborFilterBank, F.ComplexGammatoneFilterBank):
-            monitor.attach(cls, "get_impulse_response", post=self.post)
+            monitor.attach(cls, "get_impulse_response", post=self.post, ambient=self.v)
 
     def v(self, what, **kw):
         self.rec.violation(dict(what=what, case=self.case, **kw))
